@@ -273,6 +273,37 @@ def run_property(pid, tier='quick', update_ledger=False, verbose=False):
                 ob['status'] = 'refuted_known'
                 refuted_known.append(oid)
 
+    reverified = {}
+
+    def _second_opinion(oid, ob):
+        """a refuted obligation whose counter-model does not fail on the real code may be a proof that failed only because a
+        solver ran out of time on a loaded machine (a timed-out validity check weakens what the engine knows on that path):
+        the function is verified once more, alone, with three times the solver budgets.  A proof found then is a proof --
+        the obligation is discharged; a repeated refutation stands."""
+        func = oid.split('::')[0]
+        if not any(c.key == func for c in prop.contracts):
+            return False
+        if func not in reverified:
+            from pyvc import smt as _smt
+            z, cv = _smt.Z3_MS, _smt.CVC5_MS
+            _smt.Z3_MS, _smt.CVC5_MS = z * 3, cv * 3
+            _smt._cache.clear()
+            try:
+                reverified[func] = _verify_worker((pid, func, []))
+            finally:
+                _smt.Z3_MS, _smt.CVC5_MS = z, cv
+        rr = reverified[func]
+        if not rr.get('ok'):
+            return False
+        sub = {o['oid']: o for o in rr['obligations']}.get(oid)
+        if sub is not None and sub['status'] == 'discharged' and not rr.get('unsupported'):
+            ob['status'] = 'discharged'
+            ob['backends'] = sorted(set(ob.get('backends') or []) | set(sub.get('backends') or []))
+            ob['detail'] = ob['detail'] + '  [discharged on re-verification with 3x solver budgets; the first attempt ended with a counter-model that does not fail on the real code]'
+            ob['model'] = None
+            return True
+        return False
+
     for oid, ob in sorted(claimed.items()):
         if ob['status'] == 'refuted':
             violations += 1
@@ -294,6 +325,9 @@ def run_property(pid, tier='quick', update_ledger=False, verbose=False):
                             found = _guarded(out['search'], NATIVE_S)
                         if found:
                             rec['replay'] = found
+                        elif _second_opinion(oid, ob):
+                            violations -= 1
+                            continue
                         else:
                             suffix = ' no-failing-input-found'
                             if ob['kind'] == 'coverage':
